@@ -1,3 +1,4 @@
+import Secp.Gen.Consts
 import Secp.Proofs.DriversAdaptor
 import Secp.Proofs.Adaptor
 import Secp.Props.C03
@@ -103,5 +104,14 @@ theorem scalarBaseMult_regenerated (k : Bytes) : Secp.Gen.Drivers.adaptorScalarB
 theorem pubKeyXY_regenerated (p : Nat × Nat) (hx : p.1 < 2^256) (hy : p.2 < 2^256) :
     Secp.Gen.Drivers.pubKeyX p = p.1 ∧ Secp.Gen.Drivers.pubKeyY p = p.2 :=
   ⟨Secp.Proofs.DriversAdaptor.pubKeyX_regenerated p hx, Secp.Proofs.DriversAdaptor.pubKeyY_regenerated p hy⟩
+
+
+/-- the curve parameters the code reads through `curveParams` / `S256().N` / `Params().N` (regenerated literals, pass T3)
+    are the constants of the specification: pass T8 writes `N` / `P` for them on the strength of this theorem -/
+theorem curve_params_are_spec :
+    Secp.Gen.Consts.curveParams_N = Secp.Spec.N ∧ Secp.Gen.Consts.curveParams_P = Secp.Spec.P ∧
+    Secp.Gen.Consts.curveParams_Gx = Secp.Spec.Gx ∧ Secp.Gen.Consts.curveParams_Gy = Secp.Spec.Gy ∧
+    Secp.Gen.Consts.curveParams_B = 7 ∧ Secp.Gen.Consts.curveParams_N_neg = false ∧ Secp.Gen.Consts.curveParams_P_neg = false := by
+  decide
 
 end Secp.Props.C15
